@@ -125,6 +125,16 @@ impl Node {
         keyspace_name: Option<VerifiedKeyspaceName>,
         metrics: Metrics,
     ) -> Self {
+        // Verification hook H-NODE-STATE: while the harness holds a `verif_poolless_nodes` guard on
+        // this thread, an *enabled* node is built without a connection pool (no task, no socket);
+        // it answers `is_enabled() == true` through the per-node override.
+        #[cfg(scylla_verif)]
+        if VERIF_POOLLESS_NODES.with(|c| c.get()) {
+            let node = Self::new_disabled(peer);
+            node.verif_set_state(Some((true, false)));
+            return node;
+        }
+
         let host_id = peer.host_id;
         let address = peer.address;
         let datacenter = peer.datacenter.clone();
@@ -300,6 +310,29 @@ impl Node {
             .as_ref()
             .ok_or(ConnectionPoolError::NodeDisabledByHostFilter)
     }
+}
+
+#[cfg(scylla_verif)]
+thread_local! {
+    static VERIF_POOLLESS_NODES: std::cell::Cell<bool> = const { std::cell::Cell::new(false) };
+}
+
+/// Verification hook H-NODE-STATE: guard returned by [`verif_poolless_nodes`]; restores the
+/// previous setting of this thread when dropped.
+#[cfg(scylla_verif)]
+pub(crate) struct VerifPoollessGuard(bool);
+
+#[cfg(scylla_verif)]
+impl Drop for VerifPoollessGuard {
+    fn drop(&mut self) {
+        VERIF_POOLLESS_NODES.with(|c| c.set(self.0));
+    }
+}
+
+/// While the returned guard lives, `Node::new` on this thread builds enabled nodes without pools.
+#[cfg(scylla_verif)]
+pub(crate) fn verif_poolless_nodes() -> VerifPoollessGuard {
+    VerifPoollessGuard(VERIF_POOLLESS_NODES.with(|c| c.replace(true)))
 }
 
 /// Verification hook H-NODE-STATE (see `crate::verif`): lets the external harness decide, per
